@@ -140,6 +140,8 @@ pub fn gen_state(r: &mut Rng, o: &GenOpts) -> PushState {
             node_ids.push(*k as i32);
         }
     }
+    // HashMap iteration order differs from process to process: keep the generator deterministic
+    node_ids.sort();
     for _ in 0..nint {
         if !node_ids.is_empty() && r.chance(1, 3) {
             s.int_stack.push(*r.pick(&node_ids));
